@@ -691,6 +691,21 @@ class Interp:
             if r is not NotImplemented:
                 return self._finish_call(fr, t, r)
             key = t.get("resolved_key") or (t.get("callee_key") if not t.get("callee_trait") else None)
+        self_adt = None
+        if key is None and t.get("callee_trait") and t.get("callee_self") == "Self" and getattr(fr, "self_adt", None):
+            # inside a provided (default) trait method instantiated at a known Self: dispatch `Self::m` to that impl,
+            # or to the trait's own provided method when the impl does not override it
+            for imp in self.fx.impls:
+                if imp.get("trait") == t["callee_trait"] and imp.get("self_adt") == fr.self_adt:
+                    for m in imp["methods"]:
+                        if m["name"] == t.get("callee_name") and m["key"] in self.fx.fns:
+                            key = m["key"]
+            if key is None and t.get("callee_key") in self.fx.fns:
+                key = t["callee_key"]
+                self_adt = fr.self_adt
+        if key is not None and t.get("callee_trait") and key == t.get("callee_key") and t.get("callee_self_adt"):
+            # resolved to the trait's provided method: remember the Self type for the calls inside it
+            self_adt = t["callee_self_adt"]
         fv = None
         if key is None and t["func"].get("k") in ("copy", "move"):
             fv = self.operand(fr, t["func"])
@@ -706,6 +721,7 @@ class Interp:
         if callee is not None and depth < self.max_depth and (self.inline is None or self.inline(key)):
             nf = Frame(callee, args)
             nf.depth = depth + 1
+            nf.self_adt = self_adt
             nf.dest = t["dest"]
             nf.ret_to = t["target"]
             p.frames.append(nf)
